@@ -315,10 +315,11 @@ func (r *relay) processor(id uint32) Processor {
 }
 
 func (r *relay) updateTableSize(v uint32) {
-	r.decoderMu.Lock()
-	r.decoder.SetMaxDynamicTableSize(v)
-	r.decoderMu.Unlock()
-
+	// SETTINGS_HEADER_TABLE_SIZE of the receiving endpoint bounds the table of the encoder that sends to
+	// it. The decoder of this relay must not be resized here: its table follows the dynamic table size
+	// updates that the sending endpoint's encoder puts into its header blocks once it has processed the
+	// forwarded setting; until then that encoder keeps referring to entries of the old table.
+	// See: https://tools.ietf.org/html/rfc7541#section-4.2
 	r.encoderMu.Lock()
 	r.encoder.SetMaxDynamicTableSize(v)
 	r.encoderMu.Unlock()
